@@ -220,6 +220,25 @@ def scanner_cases(tier, rng):
     return out
 
 
+def textblock_docs(tier):
+    """text blocks whose special bytes (backslash + triple quote, lone quotes, line feed, blanks) fall on every lane of the
+    16-byte blocks of the line scanner; expected text by the reference implementation of C20"""
+    from . import c20 as C20
+    out = []
+    lens = range(0, 40) if tier == "quick" else range(0, 70)
+    for n in lens:
+        for special, tailn in ((b'\\"""', 0), (b'\\"""', 20), (b'"', 20), (b'""', 5), (b"\\", 20), (b" ", 20), (b"\t", 3), (b'\\\\"""x', 18)):
+            body = b"a" * n + special + b"b" * tailn
+            if body.endswith(b"\\") or body.endswith(b'"'):
+                body += b"z"
+            for ind in (b"", b"  ", b" " * 15, b" " * 16, b"\t"):
+                for closer in (None, b"", b"  "):
+                    lines = [(ind, body), (ind + b" ", b"second line")] if closer is not None else [(ind, b"first"), (ind, body)]
+                    if C20.wf(lines, closer):
+                        out.append((C20.encode(lines, closer), C20.expected_text(lines, closer)))
+    return out
+
+
 def run(tier):
     rep = C.Report(PID, tier, "proof")
     rng = C.rng(PID)
@@ -288,6 +307,27 @@ def run(tier):
             rep.broken_obligation("correspondence/read", "model and code differ on %s: %r vs %r" % (C.hexs(docs[i]), model[i], impl[i]), False)
         rep.note_cases(len(docs), set(C.sha(d)[:16] for d in docs), sample={"doc": docs[0].decode("latin-1"), "result": base[0]})
 
+    # ---- the sixth vectorised scanner: text-block lines (experimental flag)
+    tb = textblock_docs(tier)
+    for cfg in ("exp", "both"):
+        for suffix in (b"", b" :a-long-keyword-after-the-block 1 2 3"):
+            tdocs = [d + suffix for d, _ in tb]
+            ti, tm, td, tcr, _ = K.correspond(cfg, K.read_lines(tdocs))
+            rep.count("text-block-lines/%s" % cfg, len(tdocs))
+            for idx, rc, err in tcr:
+                found_input = True
+                rep.finding("scanner-crash", "text-block line scanner crashed", {"kind": "read", "config": cfg, "mode": "san", "input_hex": C.hexs(tdocs[idx]), "stderr": err[:2000]})
+            for i in td[:3]:
+                rep.broken_obligation("correspondence/text-block", "model %r vs code %r on %r" % ((tm[i] or "")[:120], (ti[i] or "")[:120], tdocs[i][:80]), False)
+            for i, a in enumerate(ti):
+                if a is None:
+                    continue
+                text = tb[i][1]
+                want = "ok (str 0 %d %d %s)" % (len(tb[i][0]), len(text), C.hexs(text) if text else "-")
+                if a != want:
+                    found_input = True
+                    rep.finding("scanner-differs/text-block-line", "text block read as %s, byte-at-a-time reading gives %s" % (a[:100], want[:100]),
+                                {"kind": "read", "config": cfg, "mode": "san", "input_hex": C.hexs(tdocs[i]), "expected": want[:400], "observed": a[:400]})
     U.finish_proof(rep, lean, found_input)
 
 
